@@ -13,7 +13,7 @@
    by the reference lexer inside a comment / docstring, the lexer being back in code at the end.
    Nothing here refers to the model of typeshare. *)
 From Coq Require Import List NArith Bool String.
-From TS Require Import Model.Str Model.Types Spec.Lexers.
+From TS Require Import Model.Str Model.Unicode Model.Types Spec.Lexers.
 Import ListNotations.
 Local Open Scope N_scope.
 
@@ -145,6 +145,28 @@ Definition c15_site_safe (l : c15_lang) (s : c15_site) : bool :=
 (* The finding class of language l: some doc string at some position is outside safe_<l>. *)
 Definition known_C15 (l : c15_lang) (sites : list c15_site) : option string :=
   if forallb (c15_site_safe l) sites then None else Some (c15_class l).
+
+(* ---- what a doc attribute CARRIES ----
+   To syn, `/// v`, `/** v */` and #[doc = "v"] are all the attribute #[doc = v].  On the unchanged tree
+   the front end carries such an attribute as the text [trim v] (Rust's str::trim: leading and trailing
+   white space, line breaks included, removed; Props/C15.v, C15_front_raw_doc_strings /
+   C15_front_carried).  The property speaks about the CARRIED text: the expectation for a doc attribute
+   with value v is the text [trim v], every character of which must be reproduced and must stay inside
+   a comment; the characters trimmed away are not carried, hence cannot escape.  So [safe_<l>], the
+   finding classes [known_C15] and the verdict [good_C15] are decided on the carried strings, never on
+   the raw attribute values: `#[doc = "\ntext"]` or the conventional
+       /**
+        * text
+        */
+   (value: LF, " * text", LF, " ") carry `text` / `* text`, which is safe for every language, although the
+   raw value contains line breaks; a generator that printed those line breaks would violate C15 and is
+   NOT covered by the finding classes. *)
+Definition c15_carried (uc : unicode) (v : str) : str := trim uc v.
+(* sites given by the attribute values as written in the source -> sites as carried *)
+Definition c15_carried_sites (uc : unicode) (raw : list c15_site) : list c15_site :=
+  map (fun s => (fst s, map (c15_carried uc) (snd s))) raw.
+Definition known_C15_attrs (uc : unicode) (l : c15_lang) (raw : list c15_site) : option string :=
+  known_C15 l (c15_carried_sites uc raw).
 
 (* ---- the verdict on a generated file ---- *)
 (* mark every occurrence of every doc string in the text ([k] = characters still to mark) *)
